@@ -782,8 +782,12 @@ def _renderer_facts(rep, m, f, rule, allow_extra_writes):
     rep.check(line_written, rule, '%s:line-is-written' % f.name, f.where, 'line case present',
               'no write of line breaks found')
     # the only mutation of a line's fragments is rstrip() of the last text fragment
+    line_var = src(inner.iter)
     stores = [s for s in ast.walk(node) if isinstance(s, ast.Assign)
-              and isinstance(s.targets[0], ast.Subscript)]
+              and isinstance(s.targets[0], ast.Subscript) and src(s.targets[0].value) == line_var]
+    n += 1
+    rep.check(len(stores) <= 1, rule, '%s:one-trim' % f.name, f.where, 'at most one rewrite of a line fragment',
+              'the renderer rewrites line fragments at %d places' % len(stores))
     for s in stores:
         tgt = s.targets[0]
         n += 1
